@@ -60,7 +60,7 @@ Definition sorted_hosts (s : state) : list (ip * host) :=
 Definition sorted_keys (s : state) : list ip := map fst (sorted_hosts s).
 
 (* ---------- parsing ---------- *)
-(* own MAC, own IPv4, own LLA, router MAC, router IPv4, LAN base, LAN bits, OfflineDeadline, PurgeDeadline [, ProbeDeadline]
+(* own MAC, own IPv4, own LLA, router MAC, router IPv4, LAN base, LAN bits, OfflineDeadline, PurgeDeadline [, ProbeDeadline [, env]]
    (seconds; without the tenth field the probe deadline is the default of 120 s) *)
 Definition cfg_of_fields (om oi ol rm ri lb lbits od pd pr : string) : option cfg :=
   match mac_of_tok om, ip_of_tok oi, ip_of_tok ol, mac_of_tok rm, ip_of_tok ri,
@@ -74,6 +74,9 @@ Definition cfg_of_tok (s : string) : option cfg :=
   match commas s with
   | [om; oi; ol; rm; ri; lb; lbits; od; pd] => cfg_of_fields om oi ol rm ri lb lbits od pd "120"
   | [om; oi; ol; rm; ri; lb; lbits; od; pd; pr] => cfg_of_fields om oi ol rm ri lb lbits od pd pr
+  (* eleventh field: the rest of NICInfo (HostGUA, RouterGUA, RouterLLA, RouterPrefix: set / unset / prefix length), which
+     the harness installs and NO rule of the model or of the reference reads *)
+  | [om; oi; ol; rm; ri; lb; lbits; od; pd; pr; _env] => cfg_of_fields om oi ol rm ri lb lbits od pd pr
   | _ => None
   end.
 
